@@ -96,7 +96,10 @@ def make_case(tier, seed, index):
                 "lat": rnd.choice(lats), "ops": _ops_for(k, rnd, rnd.randint(2, 7)),
                 "comm_addr": rnd.choice([0, 0, 0x25, 0x7E]),
                 "refuse": [x for x in REFUSABLE[fam] if rnd.random() < 0.35],
-                "frag": rnd.choice([None, None, 2, 3, 5])}
+                "frag": rnd.choice([None, None, 2, 3, 5]),
+                # the inverter's clock in the runtime data: as the fill has it (practically never a date), a valid
+                # date, or all zeroes (an inverter that is starting up)
+                "clock": rnd.choice([None, "valid", "valid", "zero"])}
     if index % 5 == 1:
         ka = kb = rnd.choice(["DT", "DT1", "DTtcp", "ET205", "ET205tcp"])
         if rnd.random() < 0.5:
@@ -153,6 +156,14 @@ def _apply_common(dev, inv, spec):
     return dev
 
 
+def _set_clock(dev, spec, reg):
+    if spec.get("clock") == "valid":
+        s = spec["seed"]
+        dev.set_bytes(reg, bytes([20 + s % 10, 1 + s % 12, 1 + (s >> 4) % 28, (s >> 2) % 24, (s >> 3) % 60, s % 60]))
+    elif spec.get("clock") == "zero":
+        dev.set_bytes(reg, bytes(6))
+
+
 def _build(goodwe, spec, host):
     kind = spec["kind"]
     tr = "tcp" if kind.endswith("tcp") else "udp"
@@ -171,6 +182,7 @@ def _build(goodwe, spec, host):
         glen = 8 if kind == "ETv1" else 12
         setb = dev.set_bytes
         dev.set_bytes(45200, bytes([23, 5, 17, 10, 11, 12]))
+        _set_clock(dev, spec, 35100)
         dev.set_reg(47000, 3)
         if glen == 12:
             dev.set_bytes(47589, bytes.fromhex("0000173bfc7f006400640000"))
@@ -181,6 +193,7 @@ def _build(goodwe, spec, host):
         if ca:
             dev.comm_addr = ca
         dev.set_bytes(40313, bytes([23, 5, 17, 10, 11, 12]))
+        _set_clock(dev, spec, 30100)
         _refuse(dev, inv, spec)
         return dev, inv, tr, None
     else:
